@@ -100,3 +100,20 @@ Theorem history_add_keeps_prefix :
   length (h_elems (h_add h x)) = h_index h + 2 /\ h_current (h_add h x) = Some x.
 Proof. exact history_add_keeps_prefix_fact. Qed.
 Print Assumptions history_add_keeps_prefix.
+
+(* append adds exactly the given items at the bottom, prepend exactly the given items at the top (nearest first), and moves change nothing but the cursor *)
+Theorem feed_growth_exact :
+  forall (A : Type) (t : tsl A) (xs : list A),
+  t_items A (t_step t (FAppend xs)) = t_items A t ++ xs /\
+  ((mid t = None -> ups t = []) -> t_items A (t_step t (FPrepend xs)) = rev xs ++ t_items A t) /\
+  t_items A (t_step t FUp) = t_items A t /\
+  t_items A (t_step t FDown) = t_items A t /\ t_items A (t_step t FCenter) = t_items A t.
+Proof. exact feed_growth_exact_fact. Qed.
+Print Assumptions feed_growth_exact.
+
+(* in every reachable state nothing lies above an empty centre (the side condition of the prepend clause) *)
+Theorem feed_mid_ups :
+  forall (A : Type) (i : finit A) (ops : list (fop A)),
+  mid (t_run i ops) = None -> ups (t_run i ops) = [].
+Proof. exact feed_mid_ups_fact. Qed.
+Print Assumptions feed_mid_ups.
